@@ -222,7 +222,49 @@ def plan(tier, seed, scale):
     return tasks
 
 
+class _Watch:
+    """Per-input watchdog for the bulk tasks: an input that does not finish within LIMIT seconds
+    (normal inputs take < 1 ms) is recorded as *inconclusive* - never as a violation - and the task
+    gives up after a few of them so that the check itself always terminates."""
+    LIMIT = 20
+    MAX_HITS = 3
+
+    def __init__(self, acc):
+        self.acc = acc
+        self.hits = 0
+
+    def __enter__(self):
+        def on_alarm(signum, frame):
+            raise Timeout()
+        self.old = signal.signal(signal.SIGALRM, on_alarm)
+        return self
+
+    def __exit__(self, *a):
+        signal.alarm(0)
+        signal.signal(signal.SIGALRM, self.old)
+
+    def run(self, fn, s):
+        """fn(s), or None if the watchdog expired."""
+        if self.hits >= self.MAX_HITS:
+            return None
+        signal.alarm(self.LIMIT)
+        try:
+            return fn(s)
+        except Timeout:
+            self.hits += 1
+            self.acc.cls("inconclusive_watchdog")
+            self.acc.notes.append("INCONCLUSIVE: parsing %r did not finish within %d s" % (_clip(s), self.LIMIT))
+            return None
+        finally:
+            signal.alarm(0)
+
+
 def run_task(task, seed, acc):
+    with _Watch(acc) as watch:
+        _run_task(task, seed, acc, watch)
+
+
+def _run_task(task, seed, acc, watch):
     kind = task["kind"]
     if kind == "atoms":
         idx = 0
@@ -232,7 +274,9 @@ def run_task(task, seed, acc):
                 if idx % task["k"] != task["i"]:
                     continue
                 s = "".join(combo)
-                o = outcome(s)
+                o = watch.run(outcome, s)
+                if o is None:
+                    continue
                 acc.case(key=digest(s), nontrivial=k >= 2,
                          sample={"text": s, "outcome": o[:2]} if idx % 20011 == task["i"] else None)
                 acc.cls("outcome_" + (o[1] if o[0] == "lib" else o[0]))
@@ -258,7 +302,10 @@ def run_task(task, seed, acc):
             t, sseed, mseed = tr
             base = printer.render(t, printer.RandomStyle(sseed, redundant=True))
             s = mutate(base, mseed)
-            r = check_string(s)
+            r = watch.run(lambda x: check_string(x) or False, s)
+            if r is None:
+                return
+            r = r or None
             acc.case(key=digest(s), nontrivial=len(TOKEN_RE.findall(s)) >= 2,
                      sample={"text": s, "mutated_from": base})
             o = outcome(s) if not r else ("bad",)
@@ -276,7 +323,10 @@ def run_task(task, seed, acc):
         )
 
         def fn(s):
-            r = check_string(s)
+            r = watch.run(lambda x: check_string(x) or False, s)
+            if r is None:
+                return
+            r = r or None
             acc.case(key=digest(s), nontrivial=len(TOKEN_RE.findall(s)) >= 2, sample={"text": s})
             if r:
                 acc.fail(r[0], {"text": s}, r[1])
@@ -309,7 +359,7 @@ def run_atheris(task, seed, acc):
         env = dict(os.environ)
         env["PYTHONPATH"] = VERIF + os.pathsep + os.path.join(VERIF, ".deps")
         cmd = [sys.executable, "-m", "vp.fuzz_c10", "-runs=%d" % task["runs"],
-               "-seed=%d" % (seed * 100 + task["shard"] + 1), "-max_len=64",
+               "-seed=%d" % (seed * 100 + task["shard"] + 1), "-max_len=64", "-timeout=25",
                "-artifact_prefix=" + crashes + "/", "-print_final_stats=1", corpus]
         p = subprocess.run(cmd, cwd=VERIF, env=env, stdout=subprocess.PIPE, stderr=subprocess.STDOUT,
                            text=True, errors="replace")
@@ -328,7 +378,10 @@ def run_atheris(task, seed, acc):
         for fn in sorted(os.listdir(crashes)):
             with open(os.path.join(crashes, fn), "rb") as f:
                 s = bytes_to_text(f.read())
-            r = check_string(s)
+            with _Watch(acc) as w2:
+                r = w2.run(lambda x: check_string(x) or False, s)
+            if r is None:
+                continue      # recorded as inconclusive by the watchdog
             if r:
                 acc.fail(r[0], {"text": s}, r[1])
             else:
